@@ -1,5 +1,5 @@
 """Anchors shared by several properties (resolved external API call sites and test-pinned names)."""
-from xsvlib.facts import FactError
+from xsvlib.facts import FactError, walk
 from xsvlib import q
 
 BROADCAST_SEND = "tokio::sync::broadcast::Sender::<T>::send"
@@ -69,6 +69,60 @@ def bodies_under_with_call(run, prefix, *callee, frame_only=False):
 
 def site(c):
     return "%s" % c.sp
+
+
+def publishers(facts):
+    """[Body]: Store::append and every other inherent Store method whose (spliced) body publishes frames on the broadcast channel
+    (a batched `append_all` running the append steps per frame under the same lock).  Siblings owe what append owes."""
+    out = []
+    ab = facts.body(APPEND)
+    if ab is not None:
+        out.append(ab)
+    for b in facts.all_bodies():
+        if b.def_ == APPEND or not b.def_.startswith("xs::store::Store::") or b.kind != "AssocFn" or "::tests::" in b.def_:
+            continue
+        if any(c.fn == BROADCAST_SEND and frame_typed(c) and c.bb in b.live_blocks() for c in b.calls()):
+            out.append(b)
+    return out
+
+
+def publisher_names(facts):
+    return tuple(b.def_ for b in publishers(facts))
+
+
+def iteration_cut(b):
+    """Blocks that start the next round of a per-frame loop in a publisher (`for frame in frames { <append steps> }`): the
+    `next()` calls whose item is the frame that is published.  'Afterwards' in a per-frame obligation means: before this block."""
+    sends = [c for c in b.calls() if c.fn == BROADCAST_SEND and frame_typed(c) and c.bb in b.live_blocks()]
+    out = []
+    for n in b.calls():
+        if n.bb in b.live_blocks() and n.fn == "core::iter::traits::iterator::Iterator::next" and not any("tracing" in str(m) for m in (n.exp or [])):
+            if any(y[0] == "call" and q.same_call(y[1], n) for s_ in sends for a in s_.arg_exprs() for y in walk(a)):
+                out.append(n.bb)
+    return out
+
+
+def append_sites(facts, b):
+    """Call sites in b that hand ONE frame to the stream: calls of Store::append (the frame is argument 1) and - when b hands a
+    vector of frames to a batch publisher (`store.append_all(frames)`, a sibling of append taking `Vec<Frame>`) - the `push` calls
+    that fill that vector (the frame is argument 1 there too; every pushed frame is published by the batch call, in push order)."""
+    out = list(q.live_calls(b, APPEND))
+    batch = [p for p in publishers(facts) if p.def_ != APPEND and p.argc >= 2 and p.local_tystr(2).startswith("alloc::vec::Vec<xs::store::Frame")]
+    for p in batch:
+        for bc in q.live_calls(b, p.def_):
+            prods = [y[1] for y in walk(bc.arg(1)) if y[0] == "call" and (y[1].fn.startswith("alloc::vec::Vec::<T>::") or "collect" in y[1].fn)]
+            pushed = []
+            for pu in q.live_calls(b, "alloc::vec::Vec::<T, A>::push"):
+                if any(y[0] == "call" and any(q.same_call(y[1], pr) for pr in prods) for y in walk(pu.arg(0))) and q.reaches(b, pu.bb, bc.bb):
+                    pushed.append(pu)
+            # a vector that was collected (not pushed into) is handed over whole: the batch call itself is the site, its
+            # argument 1 the collection - per-frame obligations then have to hold for every element (see C15.prepass_covers)
+            out += pushed if pushed else [bc]
+    return out
+
+
+def is_batch_publish(facts, c):
+    return c.fn != APPEND and c.fn in publisher_names(facts)
 
 
 def insert_wrappers(facts):
